@@ -30,6 +30,14 @@ class EvDomain(Domain):
     def for_counts(self, st, node, itersym):
         return [0, 1, 2]
 
+    def on_event(self, st, ev):
+        r = super().on_event(st, ev)
+        if ev.kind == 'call' and ev.func is None and is_delivery(ev):
+            # a callback may toggle the flag of the dispatcher
+            for _, s in r:
+                s.bump(FLAG)
+        return r
+
     def may_raise(self, st, ev):
         """Only deliveries (calls that run user callbacks) raise."""
         if ev.kind != 'call' or ev.func is not None:
